@@ -73,46 +73,85 @@ def derive_case(dsize):
                 max_paths=50000)
 
 
-def letters_case():
+def letters_case(tier):
+    """directions are negotiated independently: cipher and MAC of client-to-server and of server-to-client are chosen
+    separately; each role's outbound/inbound activation must use ITS direction's algorithms throughout"""
     def fn(ctx):
         from paramiko.transport import Transport
         ciphers = sorted(Transport._cipher_info)
         macs = sorted(Transport._mac_info)
-        cipher = ctx.choice("cipher", ciphers)
-        mac = ctx.choice("mac", macs)
-        asked = {}
+        if tier == "quick":
+            vary = ctx.choice("what-varies", ["ciphers", "macs"])
+            if vary == "ciphers":
+                c2s_cipher, s2c_cipher = ctx.choice("cipher-c2s", ciphers), ctx.choice("cipher-s2c", ciphers)
+                c2s_mac, s2c_mac = "hmac-sha2-256", "hmac-sha2-512-etm@openssh.com"
+            else:
+                c2s_cipher, s2c_cipher = "aes128-ctr", "aes256-cbc"
+                c2s_mac, s2c_mac = ctx.choice("mac-c2s", macs), ctx.choice("mac-s2c", macs)
+        else:
+            c2s_cipher, s2c_cipher = ctx.choice("cipher-c2s", ciphers), ctx.choice("cipher-s2c", ciphers)
+            c2s_mac, s2c_mac = ctx.choice("mac-c2s", macs), ctx.choice("mac-s2c", macs)
+        asked, handed = {}, {}
         for role in ("client", "server"):
             t = L.make_transport(role == "server", L.Script([]), L.make_server_interface([]) if role == "server" else None)
-            t.local_cipher = t.remote_cipher = cipher
-            t.local_mac = t.remote_mac = mac
+            mine, theirs = ((c2s_cipher, c2s_mac), (s2c_cipher, s2c_mac)) if role == "client" else ((s2c_cipher, s2c_mac), (c2s_cipher, c2s_mac))
+            t.local_cipher, t.local_mac = mine
+            t.remote_cipher, t.remote_mac = theirs
             t.local_compression = t.remote_compression = "none"
             t.K, t.H, t.session_id = 5, b"H", b"S"
             rec = []
             t._compute_key = lambda id, n, rec=rec: (rec.append((id, n)), b"\0" * n)[1]
-            t._get_engine = lambda **kw: ("engine", kw["key"], kw.get("iv"))
+            t._get_engine = lambda **kw: ("engine", kw["name"])
             t._send_message = lambda m: None
             t._remote_ext_info = None
+            got = {}
+            t.packetizer.set_outbound_cipher = lambda *a, **k: got.__setitem__("out", k if k else a)
+            t.packetizer.set_inbound_cipher = lambda *a, **k: got.__setitem__("in", k if k else a)
             t._activate_outbound()
             out = list(rec)
             del rec[:]
             t._activate_inbound()
             asked[role] = {"out": out, "in": list(rec)}
-        info = Transport._cipher_info[cipher]
-        ivsz = info.get("iv-size", info["block-size"])
-        dsz = Transport._mac_info[mac]["class"]().digest_size
-        want_c2s = [("A", ivsz), ("C", info["key-size"]), ("E", dsz)]
-        want_s2c = [("B", ivsz), ("D", info["key-size"]), ("F", dsz)]
+            handed[role] = got
+
+        def want(cipher, mac, letters):
+            info = Transport._cipher_info[cipher]
+            ivsz = info.get("iv-size", info["block-size"])
+            dsz = Transport._mac_info[mac]["class"]().digest_size
+            return [(letters[0], ivsz), (letters[1], info["key-size"]), (letters[2], dsz)]
+        want_c2s, want_s2c = want(c2s_cipher, c2s_mac, "ACE"), want(s2c_cipher, s2c_mac, "BDF")
         ctx.prove(asked["client"]["out"] == want_c2s, "client-outbound==A/C/E-with-the-cipher's-iv,key-and-digest-sizes")
         ctx.prove(asked["server"]["in"] == want_c2s, "server-inbound==client-outbound")
         ctx.prove(asked["server"]["out"] == want_s2c, "server-outbound==B/D/F")
         ctx.prove(asked["client"]["in"] == want_s2c, "client-inbound==server-outbound")
         letters = [x[0] for x in want_c2s + want_s2c]
         ctx.prove(len(set(letters)) == 6, "the-two-directions-never-share-a-derivation-letter")
+
+        def framing(cipher, mac):
+            info = Transport._cipher_info[cipher]
+            aead = bool(info.get("is_aead", False))
+            mi = Transport._mac_info[mac]
+            return {"engine": ("engine", cipher), "block_size": info["block-size"], "mac_engine": None if aead else mi["class"],
+                    "mac_size": 16 if aead else mi["size"], "etm": (not aead) and "etm@openssh.com" in mac, "aead": aead}
+
+        def handed_ok(k, cipher, mac):
+            w = framing(cipher, mac)
+            if not isinstance(k, dict):
+                return False
+            return (k.get("block_engine") == w["engine"] and k.get("block_size") == w["block_size"] and k.get("mac_engine") is w["mac_engine"]
+                    and k.get("mac_size") == w["mac_size"] and bool(k.get("etm")) == w["etm"] and bool(k.get("aead")) == w["aead"])
+        ctx.prove(handed_ok(handed["client"].get("out"), c2s_cipher, c2s_mac) and handed_ok(handed["server"].get("in"), c2s_cipher, c2s_mac),
+                  "packet-layer-gets-the-client-to-server-cipher,MAC,size-and-framing-on-both-ends")
+        ctx.prove(handed_ok(handed["server"].get("out"), s2c_cipher, s2c_mac) and handed_ok(handed["client"].get("in"), s2c_cipher, s2c_mac),
+                  "packet-layer-gets-the-server-to-client-cipher,MAC,size-and-framing-on-both-ends")
     return Case("direction-letters-and-sizes", fn,
                 ["client-outbound==A/C/E-with-the-cipher's-iv,key-and-digest-sizes", "server-inbound==client-outbound",
-                 "server-outbound==B/D/F", "client-inbound==server-outbound"],
-                {"ciphers": "every entry of Transport._cipher_info", "macs": "every entry of Transport._mac_info"})
+                 "server-outbound==B/D/F", "client-inbound==server-outbound",
+                 "packet-layer-gets-the-client-to-server-cipher,MAC,size-and-framing-on-both-ends"],
+                {"ciphers": "every ordered pair (client-to-server, server-to-client) of Transport._cipher_info",
+                 "macs": "every ordered pair of Transport._mac_info", "product": "pairs x fixed other category (quick) / full product (thorough)"},
+                max_paths=100000, wall_s=1500)
 
 
 def cases(tier):
-    return [derive_case(4), derive_case(20 if tier == "quick" else 32), letters_case()]
+    return [derive_case(4), derive_case(20 if tier == "quick" else 32), letters_case(tier)]
